@@ -724,6 +724,9 @@ class Module(ABC):
         for channel in self.base.channels:
             name = channel._name
             self.base.nodes.loc[self.nodes[name].isna(), name] = False
+            # After filling the NaNs the column still has dtype `object`, for which `~`
+            # is not a logical negation (e.g. in `delete_channel`). Make it boolean.
+            self.base.nodes[name] = self.base.nodes[name].astype(bool)
 
     @only_allow_module
     def to_jax(self):
